@@ -155,7 +155,7 @@ func Point(site string) {
 	if cs := crashSite.Load(); cs != nil && *cs == site && n == crashN.Load() {
 		// a site inside the barrier region is hit by a goroutine that is itself counted
 		own := int64(0)
-		if barrierPrefix != "" && strings.HasPrefix(site, barrierPrefix) && site != barrierBegin {
+		if barrierPrefix != "" && strings.HasPrefix(site, barrierPrefix) && site != barrierBegin && site != barrierEnd {
 			own = 1
 		}
 		for i := 0; inBarrier.Load() > own && i < 30000; i++ {
